@@ -479,6 +479,11 @@ func (b *Built) ExpectRoot(e []interface{}) []interface{} {
 
 // HasGaps reports whether the view omits a root element lying between its
 // first and last storage slot.
+// CoversRoot: the tensor is its whole root (no element of the root lies outside it). A destination like
+// that may be re-laid-out by the library (a reuse tensor's pending transposition is dropped), so there
+// is no "outside the view" to watch; its logical content is what counts.
+func (b *Built) CoversRoot() bool { return len(b.Idx) == len(b.RootE) }
+
 func (b *Built) HasGaps() bool {
 	if b.Detached || len(b.Idx) == 0 {
 		return false
